@@ -415,6 +415,12 @@ def run_check(pid, fn, argv):
     try:
         fn(ctx)
     except ToolError as e:
+        if ctx.violations:
+            # The machinery gave up (e.g. too many rejected events) AFTER it had already
+            # established violations: those are reported, the run is not a tool failure.
+            log("NOTE: run cut short (%s); reporting the %d violation(s) found so far" % (e, len(ctx.violations)))
+            ctx.finish("exploration" if pid == "C01" else "model_checking",
+                       rule="run cut short after violations were found: %s" % e)
         log("TOOL-ERROR: %s" % e)
         sys.exit(2)
     except subprocess.TimeoutExpired as e:
